@@ -372,16 +372,34 @@ def templates():
 
 
 def _first_order(p):
-    """no module / for / while-set anywhere (the fragment of the folding model)"""
+    """no module / import anywhere (the fragment of the folding model)"""
     def bad(e):
         if isinstance(e, tuple):
-            if e and e[0] in ("mod", "for", "whileset", "import"):
+            if e and e[0] in ("mod", "import"):
                 return True
             return any(bad(x) for x in e)
         if isinstance(e, list):
             return any(bad(x) for x in e)
         return False
     return not bad(p)
+
+
+def _norm_loops(e):
+    """`for` and `while x: T = e` are built as plain instructions (a block declaring `$iter` around a loop; a loop around an
+    if-set): the converter of the dump prints what it sees, the model answers the surface forms - both are brought to the
+    surface forms here before they are compared"""
+    if not isinstance(e, list):
+        return e
+    e = [_norm_loops(x) for x in e]
+    if (len(e) == 3 and e[0] == "block" and isinstance(e[1], list) and e[1][:2] == ["set", "$iter"] and isinstance(e[2], list)
+            and len(e[2]) == 2 and e[2][0] == "loop" and isinstance(e[2][1], list) and len(e[2][1]) == 3 and e[2][1][0] == "block"):
+        d, i = e[2][1][1], e[2][1][2]
+        if (isinstance(d, list) and d[0] == "destruct" and len(d[1]) == 2 and d[1][0] == "$con" and d[2] == ["call", ["id", "$iter"]]
+                and isinstance(i, list) and len(i) == 4 and i[0] == "if" and i[1] == ["id", "$con"] and i[3] == "break"):
+            return ["for", d[1][1], e[1][2], i[2]]
+    if (len(e) == 2 and e[0] == "loop" and isinstance(e[1], list) and len(e[1]) == 6 and e[1][0] == "ifset" and e[1][5] == "break"):
+        return ["whileset", e[1][1], e[1][2], e[1][3], e[1][4]]
+    return e
 
 
 def fold_model(res, tier, seed, broken_model):
@@ -426,6 +444,7 @@ def fold_model(res, tier, seed, broken_model):
                 iv = ["error", ii[1]]
             else:
                 iv = ii
+        ms, iv = _norm_loops(ms), _norm_loops(iv)
         if sexp_str(ms) == sexp_str(iv):
             if ms[0] == "error":
                 st["agree_parse_time_error"] += 1
